@@ -1917,6 +1917,35 @@ void run_models_case(vf::ctx_t& c)
             [](const wlearner_t& a, const wlearner_t& b) { return wlearner_difference(a, b); }, env, decoded, h, fitted);
         nt = fitted ? h : 0;
 
+        // reading into an object that is already in ANOTHER fitted state (fitted on the negated gradients: other
+        // thresholds, directions, tables) must give the written object as well - a reader must restore every field
+        if (fitted)
+        {
+            auto       other = wlearner_t::all().get(id);
+            tensor4d_t negated(gradients.dims());
+            negated.vector() = -gradients.vector();
+            for (const auto& p : wl->parameters())
+            {
+                std::ostringstream os;
+                p.write(os);
+                std::istringstream is(os.str());
+                const_cast<parameter_t&>(other->parameter(p.name())).read(is);
+            }
+            if (other->fit(dataset, subset, negated) != wlearner_t::no_fit_score())
+            {
+                const auto sw = record([&](std::ostream& os) { wl->write(os); });
+                const auto o  = attempt(sw.m_bytes.data(), sw.m_bytes.size(), [&](std::istream& is) { other->read(is); });
+                c.count("reload_into_used_object");
+                const auto diff = o == outcome_t::accepted ? wlearner_difference(*wl, *other) : std::string("read failed");
+                const auto sr   = record([&](std::ostream& os) { other->write(os); });
+                if (!diff.empty() || sr.m_bytes != sw.m_bytes)
+                {
+                    auto j = decoded;
+                    k.violation("C15|roundtrip|reload-into-used-object|" + object, j.kv("differs", diff.empty() ? std::string("re-serialisation") : diff));
+                }
+            }
+        }
+
         // the fitted learner inside the nested reader (vector of factory objects)
         if (fitted)
         {
